@@ -83,3 +83,63 @@ def c06(out):
         run_sharded(out, exe, ["--prop", "C06", "--mode", "xbe"], vname, cases, label="par")
     out.assumptions += ["only back ends the host CPU can execute are compared (generic, 128-bit, 256-bit on this host)",
                         "back end pinned via the RWEATHER_SKINNY_C_VERIF cap hook; pinning is confirmed from the handle's vtable"]
+
+
+# --------------------------------------------------------------------- C01..C04
+def _blk(out, prop, mode, variants):
+    for vname, cases in variants:
+        exe = build_driver("drv_blk", ["drv_blk.c"] + HIST, vname)
+        run_sharded(out, exe, ["--prop", prop, "--mode", mode], vname, cases)
+
+
+@check("C01")
+def c01(out):
+    out.rule = ("case index -> (variant of six, direction, input kind): every value of every cell under zero and random keys (8192 structured cases per variant/direction), "
+                "walking-one keys over every tweakey bit, special keys (all-ones, TK1/TK2/TK3-only), then uniformly random key/block pairs; library set_key + ecb_encrypt/decrypt "
+                "compared with an independent cell/table model of the specification (both directions directly). distinct = distinct (variant,direction,key,block) hashes; all are non-trivial.")
+    v = [("prod", n(out, 12 * 11000, 12 * 400000)), ("asan", n(out, 12 * 9000, 12 * 60000)), ("prod+W32", n(out, 12 * 9000, 12 * 100000)),
+         ("prod+NEUTRAL", n(out, 12 * 9000, 12 * 100000))]
+    if out.tier == "thorough":
+        v += [("clang", 12 * 100000), ("msan", 12 * 20000), ("prod+O0", 12 * 30000), ("prod+UNAL0", 12 * 30000), ("prod+W32+NEUTRAL", 12 * 30000), ("clang+W32", 12 * 30000)]
+    _blk(out, "C01", "c01", v)
+    out.assumptions += ["the cell/table reference model (self-tested against the six published vectors every run) is the specification",
+                        "32-bit and byte-order-neutral source paths are compiled for and run on the 64-bit little-endian host via the switch hook"]
+
+
+@check("C02")
+def c02(out):
+    out.rule = ("case index -> (rounds 5..8, schedule mode, entry point of four: set_tweak+crypt / crypt_tweaked / fresh schedule / set_tweak(NULL)) x input kind: walking-one keys (128), "
+                "walking-one tweaks (64), single-nibble tweaks (256), every nibble value in every cell (256), special keys exercising the k0' rotation, then random (key,tweak,block) triples; "
+                "compared with an independent model of MANTIS-r (forward cipher for encrypt schedules, the model's own inverse for decrypt schedules). distinct = distinct input hashes.")
+    v = [("prod", n(out, 32 * 3000, 32 * 150000)), ("asan", n(out, 32 * 1200, 32 * 20000)), ("prod+W32", n(out, 32 * 1500, 32 * 40000)), ("prod+NEUTRAL", n(out, 32 * 1500, 32 * 40000))]
+    if out.tier == "thorough":
+        v += [("clang", 32 * 40000), ("msan", 32 * 8000), ("prod+O0", 32 * 10000), ("prod+W32+NEUTRAL", 32 * 10000)]
+    _blk(out, "C02", "c02", v)
+    out.assumptions += ["the reference model (self-tested against the four published MANTIS vectors every run) is the specification"]
+
+
+@check("C03")
+def c03(out):
+    out.rule = ("case index mod 4: 0,1 = SKINNY single-block D(E(x)) and E(D(x)) under plain keys of every primary size and tweaked schedules; 2 = parallel ECB round trips for every block count "
+                "0..40 then random counts up to 300, both orders, in place and out of place, on every back end (Mantis via swap_modes, plus double-swap identity); 3 = Mantis histories of 1..40 operations "
+                "over set_key(mode)/set_tweak/set_tweak(NULL)/swap_modes/crypt/crypt_tweaked checked against a (key,tweak,mode,rounds) model, and after every swap the schedule is compared behaviourally with a fresh schedule keyed in the other mode.")
+    v = [("prod", n(out, 40000, 2000000)), ("asan", n(out, 8000, 200000)), ("prod+W32", n(out, 8000, 200000))]
+    if out.tier == "thorough":
+        v += [("clang", 300000), ("prod+UNAL0", 100000), ("prod+NEUTRAL", 100000), ("msan", 40000)]
+    _blk(out, "C03", "c03", v)
+    out.assumptions += ["round-trip identities are metamorphic; absolute correctness is tied to the models by C01/C02/C07"]
+
+
+@check("C04")
+def c04(out):
+    out.rule = ("histories of 2..60 operations (1 in 50: chains of 1100) over set_tweaked_key (any legal key size) / set_tweak (length 1..block, structured and random bytes, NULL) / encrypt / decrypt "
+                "on Skinny128TweakedKey_t and Skinny64TweakedKey_t; every block is compared with the reference cipher recomputed from scratch from (key, latest tweak zero-padded, domain bit). "
+                "The same through the CTR tweak API on every back end (model-tweaked mode). distinct = distinct (key, tweak-sequence) hashes with >2 operations.")
+    v = [("prod", n(out, 5000, 250000)), ("asan", n(out, 1200, 30000)), ("prod+W32", n(out, 1200, 30000)), ("prod+NEUTRAL", n(out, 1200, 30000))]
+    if out.tier == "thorough":
+        v += [("clang", 30000), ("msan", 10000)]
+    _blk(out, "C04", "c04", v)
+    for vname, cases in [("prod", n(out, 2400, 90000)), ("asan", n(out, 600, 12000))]:
+        exe = build_driver("drv_ctr", ["drv_ctr.c"] + HIST, vname)
+        run_sharded(out, exe, ["--prop", "C04", "--mode", "model-tweaked"], vname, cases, label="ctr")
+    out.assumptions += ["reference model is stateless w.r.t. tweak history, so any history dependence of the implementation shows as a mismatch"]
